@@ -88,7 +88,8 @@ def generate(rng, index, tier, extra):
     try:
         return _generate(rng, index, tier, extra)
     except workload.SenderRejected as exc:
-        return {'kind': 'sender-failed', 'channel': exc.channel, 'errors': exc.errors}
+        return {'kind': 'sender-failed', 'channel': exc.channel, 'errors': exc.errors,
+                'unit': exc.unit.hex() if exc.unit is not None else None}
 
 
 def _generate(rng, index, tier, extra):  # pylint: disable=unused-argument
@@ -213,15 +214,39 @@ def execute(doc):
     elif kind == 'prefix':
         _exec_prefix(doc, res)
     elif kind == 'sender-failed':
-        res.violation((PROPERTY, 'composed-records-never-accepted-whole', doc['channel']),
-                      'the reader ends up with exactly the original sequence of records',
-                      '20 units composed by the library in a row were not accepted whole by its own parser (or could '
-                      'not be built): %s' % doc['errors'])
-        res.sched_sig = ('sender-failed', doc['channel'])
+        _exec_sender_failed(doc, res)
     else:
         raise core.HarnessError('unknown schedule kind %r' % kind)
     res.stats['sender.units_not_accepted_by_own_parser(C01-class, not sent)'] += len(doc.get('sender_discards', ()))
     return res
+
+
+def _exec_sender_failed(doc, res):
+    """A record the library composed from a properly constructed object must be accepted whole by its own
+    parser, otherwise no reader can end up with the sequence that was sent."""
+    channel = doc['channel']
+    res.sched_sig = ('sender-failed', channel)
+    if doc.get('unit') is None:
+        res.violation((PROPERTY, 'record-cannot-be-composed', channel),
+                      'the reader ends up with exactly the original sequence of records',
+                      'constructing / composing a unit for channel %s failed: %s' % (channel, doc['errors']))
+        return
+    unit = bytes.fromhex(doc['unit'])
+    if channel == 'tls_handshake':
+        cls = core.get_class('cryptoparser.tls.subprotocol.TlsHandshakeMessageVariant')
+    else:
+        cls = core.get_class(workload.CHANNEL_BY_NAME[channel].cls_path)
+    try:
+        cls.parse_exact_size(unit)
+    except (core.RunTimeout, KeyboardInterrupt, SystemExit):
+        raise
+    except BaseException as exc:  # pylint: disable=broad-except
+        res.violation((PROPERTY, 'composed-record-not-accepted-whole', cls.__name__, type(exc).__name__),
+                      'the reader ends up with exactly the original sequence of records',
+                      'a %d byte unit composed by the library (%s...) is answered with %s%s when it is complete' % (
+                          len(unit), unit[:24].hex(), type(exc).__name__,
+                          '(%s)' % getattr(exc, 'bytes_needed', '') if hasattr(exc, 'bytes_needed') else ''))
+    res.event('sender-failed', channel, len(unit))
 
 
 def _exec_stream(doc, res):
